@@ -16,7 +16,7 @@ RULE = ("histories of ~18 steps over 1-3 proxies and 1-5 concurrently open strea
         "{0,5} x ITER_STREAM_LINGER {0,3} x both server types. distinct = (history hash, step); non-trivial = the step concerns an open stream")
 ASSUMPTIONS = ["the virtual clock starts at 1e9 (a linger stamp of 0 means 'none' in Pyro's code)", "after every client-side disconnect / oneway close the harness waits for the server-side event (10 s watchdog, expiry = inconclusive)",
                "a stream whose deadline has passed may be forgotten at any time until the next explicit housekeeping step, after which it must be gone"]
-REQUIRED_REACH = ["items_ok", "stopiteration_ok", "generator_exception_ok", "forgotten_ok", "reconnect_continues", "linger_expired", "lifetime_expired", "table_checked", "streaming_disabled_ok", "racing_reconnects", "server_ended_connections", "housekeeping_during_fetch", "histories_under_one_correlation_id"]
+REQUIRED_REACH = ["items_ok", "stopiteration_ok", "generator_exception_ok", "forgotten_ok", "reconnect_continues", "linger_expired", "lifetime_expired", "table_checked", "streaming_disabled_ok", "racing_reconnects", "server_ended_connections", "housekeeping_during_fetch", "histories_under_one_correlation_id", "concurrent_streams_checked"]
 SHARD_TIMEOUT = {"quick": 240, "thorough": 3000}
 
 
@@ -462,6 +462,68 @@ def plan(tier, seed):
     return shards
 
 
+def concurrent_phase(fx, rec, r, cfg):
+    """several clients open, read and abandon streams at the same time (thread server: their connections are served, and their disconnects
+    handled, by different worker threads at once; seeded yield injection in server.py): nobody's live stream may suffer from somebody else's
+    disconnect, and the table is empty when everybody is done"""
+    P = fx.P
+    from vlib import yieldinj
+    problems = []
+    lock = threading.Lock()
+
+    def client(tid):
+        try:
+            for n in range(12):
+                key = "conc-%d-%d-%d" % (id(rec) % 1000, tid, n)
+                items = [[key, i] for i in range(4)]
+                SPECS[key] = (items, False, "gen" if n % 2 else "listiter")
+                with fx.proxy("src", serializer=cfg["serializer"], timeout=10.0) as p:
+                    it = p.open(key)
+                    got = []
+                    try:
+                        got.append(next(it))
+                        got.append(next(it))
+                        if n % 3 == 0:
+                            it.proxy = None          # abandon the stream: this connection just goes away
+                            continue
+                        for x in it:
+                            got.append(x)
+                    except Exception as x:
+                        with lock:
+                            problems.append("client %d stream %s: got %r then %r (its connection was alive all the time)" % (tid, key, got, x))
+                        continue
+                    finally:
+                        try:
+                            it.proxy = None
+                        except Exception:
+                            pass
+                    if [list(g) for g in got] != items:
+                        with lock:
+                            problems.append("client %d stream %s delivered %r instead of %r" % (tid, key, got, items))
+                    with lock:
+                        rec.count("concurrent_streams_checked")
+        except Exception as x:
+            with lock:
+                problems.append("client %d failed: %r" % (tid, x))
+    yieldinj.enable(("Pyro5/server.py",), 0.08, rec.seed * 23 + 5, max_sleep=0.002)
+    try:
+        ts = [threading.Thread(target=client, args=(i,), daemon=True) for i in range(5)]
+        for t in ts:
+            t.start()
+        for t in ts:
+            t.join(120)
+    finally:
+        n, _ = yieldinj.disable()
+        rec.count("injected_yields", n)
+    rec.case(("concurrent", repr(sorted(cfg.items()))), nontrivial=True)
+    pay = {"concurrent": True, "cfg": cfg}
+    if problems:
+        rec.violation("live-stream-refused", "5 clients streaming at once: %d problem(s); first: %s" % (len(problems), problems[0]), pay)
+        return
+    if not fx.wait_until(lambda: not fx.daemon.streaming_responses, 10.0):
+        rec.violation("forgotten-stream-still-held", "after all concurrent clients finished or went away the table still holds %d stream(s)" % len(fx.daemon.streaming_responses), pay)
+
+
 def install_gate(fx):
     """delay point at the entry of the daemon's disconnect handling (thread server only: there the old connection's worker and the new connection's
     worker really run concurrently); armed per connection serial by the 'racing-reconnect' step"""
@@ -494,6 +556,11 @@ def run_shard(shard, rec):
             if rec.should_stop(8):
                 break
             run_history(fx, vclock, rec, r, cfg, r.randrange(10, 28), "h%d" % h)
+        if shard["servertype"] == "thread" and shard["streaming"] and not shard["linger"] and not shard["lifetime"]:
+            for _ in range(3 if rec.tier == "quick" else 30):
+                if rec.should_stop(8):
+                    break
+                concurrent_phase(fx, rec, r, cfg)
         for kind, text in fixture.take_faults():
             if kind == "thread-exception":
                 rec.violation("server-thread-fault", text, None)
@@ -512,6 +579,10 @@ def replay(payload, rec):
                          ITER_STREAM_LINGER=float(cfg["linger"]), THREADPOOL_SIZE=20)
     try:
         fx.register(make_service(P), "src")
+        if payload.get("concurrent"):
+            for _ in range(20):
+                concurrent_phase(fx, rec, gen.rng(0, "replay"), cfg)
+            return
         if cfg["servertype"] == "thread":
             install_gate(fx)
         for i, s in enumerate(payload["steps"]):
